@@ -15,7 +15,8 @@
    it is yielded as an error result (ErrVal) and ends the iteration.                              *)
 EXTENDS Integers, Sequences, FiniteSets, TLC, Json
 
-CONSTANTS MaxDepth, MaxLen, Vals, Limits
+CONSTANTS MaxDepth, MaxLen, Vals, Limits,
+          MaxClose    \* Close calls explored per run (1 or 2)
 
 ErrVal == 99
 \* configuration values (cfg files cannot write sets of negative numbers portably)
@@ -23,6 +24,7 @@ MCVals   == {1, 2}          \* one odd, one even value: all the predicates can d
 LimitsS  == -1..2
 LimitsQ  == -1..3
 LimitsT  == -1..4
+LimitsL  == -1..6
 LimitsSim == -1..60
 Maps   == {"inc", "dbl"}
 Preds  == {"true", "false", "even"}
@@ -132,7 +134,7 @@ DoNext == /\ nClose = 0 /\ (fin => nAfter < 1)
 \* Val is a pure observation: it returns ValAt and changes nothing
 DoVal == last = "t" /\ nClose = 0 /\ UNCHANGED vars
 ValNow == ValAt(term, Depth(term), st)
-DoClose(j) == /\ nClose < 2 /\ j \in 0..Depth(term)
+DoClose(j) == /\ nClose < MaxClose /\ j \in 0..Depth(term)
               /\ st' = CloseAt(term, j, st) /\ nClose' = nClose + 1 /\ last' = "none"
               /\ UNCHANGED <<term, out, fin, nAfter>>
 
